@@ -1,4 +1,5 @@
 use crate::fw::*;
+pub mod c04;
 pub mod c05;
 pub mod c06;
 pub mod c12;
@@ -18,6 +19,7 @@ macro_rules! table {
 
 pub fn dispatch(ctx: &Ctx, replay: Option<&str>) -> i32 {
     table!(ctx, replay,
+        "C04" => c04,
         "C05" => c05,
         "C06" => c06,
         "C12" => c12,
